@@ -72,7 +72,8 @@ def settingsOfJson (j : Json) : Except String LibSettings := do
 
 def methodJson (m : Method) : Json :=
   Json.mkObj [("addr", jnat m.addr), ("name", jstr m.name), ("internal", Json.bool m.internal),
-              ("client_method_name", jstr m.clientMethodName)]
+              ("client_method_name", jstr m.clientMethodName),
+              ("surface", jarr (m.surfaceNames.map fun (a, b) => jarr [jstr a, jstr b]))]
 
 def serviceJson (s : Service) : Json :=
   Json.mkObj [("addr", jnat s.addr), ("name", jstr s.name), ("internal", Json.bool s.isInternal),
